@@ -56,5 +56,10 @@ class UpdateNodeAttrs(BasicAction):
     def _apply(self) -> None:
         """Set new attributes"""
         for attr, value in self.new_attrs.items():
-            self.tracks._set_node_attr(self.node, attr, value)
+            if value is None:
+                # None stands for "no value" (this is what the inverse of an update
+                # that introduced the attribute passes): remove it again
+                self.tracks.graph.nodes[self.node].pop(attr, None)
+            else:
+                self.tracks._set_node_attr(self.node, attr, value)
         self.tracks.notify_annotators(self)
